@@ -218,6 +218,27 @@ func c02CraftXML(spec []string) string {
 	return b.String()
 }
 
+// c02CraftWellFormed: every cell lies in its row, columns strictly increasing.
+func c02CraftWellFormed(spec []string) bool {
+	row, last := 0, 0
+	for _, w := range spec {
+		p := strings.Split(w, ".")
+		if p[0] == "R" && len(p) == 3 {
+			row, last = c02Atoi(p[1]), 0
+			continue
+		}
+		if len(p) != 6 {
+			return false
+		}
+		c, r := c02Atoi(p[0]), c02Atoi(p[1])
+		if r != row || c <= last {
+			return false
+		}
+		last = c
+	}
+	return true
+}
+
 func c02Patch(pkg []byte, part, sheetData string) ([]byte, error) {
 	zr, err := zip.NewReader(bytes.NewReader(pkg), int64(len(pkg)))
 	if err != nil {
@@ -331,7 +352,11 @@ func (h *c02Hist) apply(t *c02Twin, w []string) (res string) {
 				return "ERR"
 			}
 		}
-		g, err := xl.OpenReader(bytes.NewReader(data))
+		var opts xl.Options
+		if w[0] == "reopen" && len(w) == 2 { // parts larger than this are spilled to temporary files
+			opts.UnzipXMLSizeLimit = int64(n(1))
+		}
+		g, err := xl.OpenReader(bytes.NewReader(data), opts)
 		if err != nil {
 			return "ERR"
 		}
@@ -366,6 +391,9 @@ func (h *c02Hist) apply(t *c02Twin, w []string) (res string) {
 	case "colvis":
 		a, _ := xl.ColumnNumberToName(n(2))
 		return c02Err(f.SetColVisible(h.sheet(n(1)), a, w[3] == "1"))
+	case "colout":
+		a, _ := xl.ColumnNumberToName(n(2))
+		return c02Err(f.SetColOutlineLevel(h.sheet(n(1)), a, uint8(n(3))))
 	case "colsty":
 		a, _ := xl.ColumnNumberToName(n(2))
 		b, _ := xl.ColumnNumberToName(n(3))
@@ -484,20 +512,29 @@ func c02Observe(f *xl.File, h *c02Hist) (obs []c02Obs) {
 			}
 			return strings.Join(s, ",")
 		}))
+		rowsWide := false
 		for _, raw := range []bool{false, true} {
 			add(i, p+fmt.Sprintf("rows(raw=%v)", raw), "rows", safe(func() string {
 				rows, err := f.GetRows(name, xl.Options{RawCellValue: raw})
 				if err != nil {
 					return "ERR"
 				}
+				for _, row := range rows {
+					if len(row) > 200 {
+						rowsWide = true
+					}
+				}
 				return c02Grid(rows)
 			}))
 		}
 		wideCols := false // GetCols re-parses the part once per column: skipped next to XFD
-		for k := range h.far {
-			if k[0] == i && k[1] > 100 {
+		for k := range h.far { // any sheet: CopySheet carries the far cells along
+			if k[1] > 100 {
 				wideCols = true
 			}
+		}
+		if rowsWide {
+			wideCols = true
 		}
 		add(i, p+"cols", "rows", safe(func() string {
 			if wideCols {
@@ -646,7 +683,36 @@ func c02Parts(pkg []byte) []string {
 
 func (h *c02Hist) replay() string { return strings.Join(h.lines, "\n") }
 
+// overlappingMerges: the history merges two different, intersecting rectangles on one sheet.
+func (h *c02Hist) overlappingMerges() bool {
+	type rect struct{ sh, c1, r1, c2, r2 int }
+	var rs []rect
+	for _, l := range h.lines {
+		w := strings.Fields(l)
+		if len(w) != 6 || w[0] != "merge" {
+			continue
+		}
+		q := rect{c02Atoi(w[1]), min(c02Atoi(w[2]), c02Atoi(w[4])), min(c02Atoi(w[3]), c02Atoi(w[5])),
+			max(c02Atoi(w[2]), c02Atoi(w[4])), max(c02Atoi(w[3]), c02Atoi(w[5]))}
+		for _, p := range rs {
+			if p.sh == q.sh && p != q && p.c1 <= q.c2 && q.c1 <= p.c2 && p.r1 <= q.r2 && q.r1 <= p.r2 {
+				return true
+			}
+		}
+		rs = append(rs, q)
+	}
+	return false
+}
+
 func (h *c02Hist) fail(sig, what string, line int) {
+	if !strings.HasPrefix(sig, "panic:") && !strings.HasPrefix(sig, "save-twice") && h.overlappingMerges() {
+		for _, a := range []string{":merges:", ":cell:", ":rows:", ":type:", ":formula:", ":style:", ":result:"} {
+			if strings.Contains(sig+":", a) {
+				sig = "twin:overlapping-merges-normalised-at-save"
+				break
+			}
+		}
+	}
 	if strings.Contains(sig, ":link:") {
 		// hyperlink targets live in the sheet's relationship part: is this the CopySheet-after-link pattern?
 		seenLink := false
@@ -663,13 +729,22 @@ func (h *c02Hist) fail(sig, what string, line int) {
 	if h.failed[sig] {
 		return
 	}
-	if strings.HasPrefix(sig, "panic:") {
-		for _, l := range h.lines {
-			if strings.HasPrefix(l, "craft ") { // hand-made malformed part: the panic is input validation (C14); the model predicts it
-				h.failed[sig] = true
-				h.r.Stat("info:panic-on-crafted-part")
-				return
-			}
+	for _, l := range h.lines {
+		if !strings.HasPrefix(l, "craft ") {
+			continue
+		}
+		if strings.HasPrefix(sig, "panic:") { // hand-made part: the panic is input validation (C14); the model predicts it
+			h.failed[sig] = true
+			h.r.Stat("info:panic-on-crafted-part")
+			return
+		}
+		if !c02CraftWellFormed(strings.Fields(l)[2:]) {
+			// cells out of column order, duplicated or in the wrong row: getters (by reference) and setters
+			// (by slot) already disagree before any save; outside the property's quantifier, the
+			// correspondence with the model is what covers these histories
+			h.failed[sig] = true
+			h.r.Stat("info:oracle-on-malformed-part")
+			return
 		}
 	}
 	h.failed[sig] = true
@@ -841,7 +916,7 @@ func (h *c02Hist) execOne(w []string, twin bool) string {
 		h.touch(n(1), 1, n(3))
 	case "colw", "colsty":
 		h.touch(n(1), n(3), 1)
-	case "colvis", "delc":
+	case "colvis", "delc", "colout":
 		h.touch(n(1), n(2), 1)
 	case "insc":
 		h.touch(n(1), n(2)+n(3), 1)
@@ -850,18 +925,18 @@ func (h *c02Hist) execOne(w []string, twin bool) string {
 }
 
 var c02Mutating = map[string]bool{"val": true, "fml": true, "sty": true, "hide": true, "newsheet": true, "copy": true,
-	"float": true, "rich": true, "merge": true, "unmerge": true, "colw": true, "colvis": true, "colsty": true,
+	"float": true, "rich": true, "merge": true, "unmerge": true, "colw": true, "colvis": true, "colsty": true, "colout": true,
 	"rowsty": true, "rowh": true, "rowout": true, "insr": true, "delr": true, "insc": true, "delc": true,
 	"dupr": true, "link": true, "defname": true, "active": true, "shvis": true, "dim": true, "stream": true}
 
 // observeBefore / observeAfter are the getter calls that accompany `save k o`.
-// The getters are not pure (GetCellStyle materialises blank cells and rows,
-// reading a long number rewrites its text, the first string read creates the
-// shared-string part), so every twin receives exactly the same calls.
+// One getter side effect is left in the library (the first string read creates
+// the shared-string part and its relationship), so every twin receives exactly
+// the same calls. (GetCellStyle materialising cells and the rewrite of long
+// numbers by formatted reads were repaired in the code: C04.)
 func (h *c02Hist) observeBefore(f *xl.File, o int) (base []c02Obs) {
 	if o&1 != 0 {
-		c02Observe(f, h)
-		base = c02Observe(f, h) // second pass: the baseline that only the save can change
+		base = c02Observe(f, h)
 	}
 	return
 }
@@ -897,7 +972,7 @@ func (h *c02Hist) line(l string) int {
 	if w[0] == "save" && len(w) == 3 && h.a.f != nil {
 		k, o := c02Atoi(w[1]), c02Atoi(w[2])
 		if o&1 != 0 {
-			h.lastSave = nil // getters run between the two saves
+			h.lastSave = nil // getters run between the two saves (the first string read creates xl/sharedStrings.xml)
 		}
 		before := h.observeBefore(h.a.f, o)
 		if h.b.f != nil {
@@ -1152,6 +1227,9 @@ func (g *c02Gen) coreOp() []string {
 	case x < 86:
 		return g.saveLines()
 	case x < 90:
+		if rg.Chance(45) {
+			return []string{fmt.Sprintf("reopen %d", []int{64, 300, 2000}[rg.Intn(3)])}
+		}
 		return []string{"reopen"}
 	case x < 95:
 		if g.nsheet < 5 {
@@ -1182,6 +1260,9 @@ func (g *c02Gen) wideOp() []string {
 	sh := rg.Intn(g.nsheet)
 	c, r := g.pos(true)
 	c2, r2 := c+rg.Intn(3), r+rg.Intn(3)
+	if rg.Chance(8) {
+		return g.colBurst(sh)
+	}
 	switch rg.Intn(24) {
 	case 0:
 		return []string{fmt.Sprintf("float %d %d %d %x", sh, c, r, math.Float64bits([]float64{0.1, 1.5, 1e21, -2.25, 43831.5, 1.0000000000000002}[rg.Intn(6)]))}
@@ -1230,6 +1311,86 @@ func (g *c02Gen) wideOp() []string {
 		}
 	}
 	return g.coreOp()
+}
+
+// colBurst draws several column-definition ops on adjacent columns 1..5 (single columns and
+// short ranges; width, style, visibility, outline in all combinations): mergeExpandedCols
+// merges adjacent definitions at save time, which must not change any of them.
+func (g *c02Gen) colBurst(sh int) []string {
+	rg := g.rng
+	var ls []string
+	for i := rg.Range(2, 6); i > 0; i-- {
+		c1 := rg.Range(1, 5)
+		c2 := c1
+		if rg.Chance(35) {
+			c2 = min(c1+rg.Range(1, 3), 6)
+		}
+		switch rg.Intn(4) {
+		case 0:
+			ls = append(ls, fmt.Sprintf("colw %d %d %d %d", sh, c1, c2, []int{10, 20}[rg.Intn(2)]))
+		case 1:
+			ls = append(ls, fmt.Sprintf("colsty %d %d %d %d", sh, c1, c2, rg.Intn(3)))
+		case 2:
+			ls = append(ls, fmt.Sprintf("colvis %d %d %d", sh, c1, rg.Intn(2)))
+		case 3:
+			ls = append(ls, fmt.Sprintf("colout %d %d %d", sh, c1, rg.Intn(3)))
+		}
+	}
+	if rg.Chance(70) {
+		ls = append(ls, fmt.Sprintf("save %d %d", rg.Intn(4), []int{2, 3, 6, 7}[rg.Intn(4)]))
+	}
+	return ls
+}
+
+// spillHistory: a workbook with a shared-string table and worksheets larger than
+// Options.UnzipXMLSizeLimit is reopened (parts spilled to temporary files), then read through
+// the public getters — numeric/blank cells only, or text cells as well — then saved without a
+// preceding full observation, then observed.
+func (g *c02Gen) spillHistory() {
+	h, rg := g.h, g.rng
+	h.finish()
+	h.emit = false
+	g.nsheet = 1
+	g.last = nil
+	g.strs = map[[3]int]bool{}
+	emit := func(l string) {
+		h.line(l)
+		g.last = append(g.last, l)
+		h.r.Stat("op:" + strings.Fields(l)[0])
+	}
+	emit("new")
+	if rg.Chance(40) {
+		g.nsheet++
+		emit("newsheet")
+	}
+	nrows := rg.Range(3, 9)
+	for sh := 0; sh < g.nsheet; sh++ {
+		for r := 1; r <= nrows; r++ {
+			emit(fmt.Sprintf("val %d 1 %d s %s", sh, r, hx(fmt.Sprintf("text value number %d of sheet %d", r, sh))))
+			emit(fmt.Sprintf("val %d 2 %d - %s", sh, r, hx(strconv.Itoa(r*10))))
+		}
+	}
+	emit(fmt.Sprintf("reopen %d", []int{64, 200, 256, 700}[rg.Intn(4)]))
+	for i := rg.Intn(4); i > 0; i-- {
+		col := 2 // numeric
+		switch x := rg.Intn(10); {
+		case x < 2:
+			col = 1 // text
+		case x < 4:
+			col = 3 // blank
+		}
+		emit(fmt.Sprintf("get %d %d %d", rg.Intn(g.nsheet), col, rg.Range(1, nrows)))
+	}
+	for _, l := range g.saveLines() {
+		w := strings.Fields(l)
+		emit(fmt.Sprintf("save %s %d", w[1], c02Atoi(w[2])&^1|2)) // no observation before, twin observation after
+	}
+	for i := rg.Intn(6); i > 0; i-- {
+		for _, l := range g.coreOp() {
+			emit(l)
+		}
+	}
+	h.finish()
 }
 
 // craftLine draws a malformed-ish sheetData for one sheet: sparse rows in increasing
@@ -1377,6 +1538,20 @@ var c02Witnesses = [][]string{
 // where relsWriter puts it at save time)
 var c02WideWitnesses = [][]string{
 	{"new", "newsheet", "link 1 3 1 l3", "save 0 0", "copy 1 0", "get 0 3 1"},
+	// open finding: overlapping merged ranges are only combined by the save (mergeOverlapCells, in place);
+	// until then a write into the overlap is redirected to the first range listed
+	{"new", "merge 0 4 3 4 4", "merge 0 3 2 4 3", "save 0 0", "val 0 4 4 - " + hx("1")},
+}
+
+// regression histories for defects the twin oracle once missed (run on every run, direct oracles only)
+var c02Regressions = [][]string{
+	// adjacent single-column definitions that differ only in style must survive mergeExpandedCols
+	{"new", "colw 0 1 4 20", "colsty 0 3 3 1", "save 0 6", "get 0 4 1", "save 1 7"},
+	{"new", "colsty 0 2 2 1", "colsty 0 3 3 2", "colout 0 4 1", "colvis 0 5 0", "save 2 7", "colw 0 2 3 10", "save 0 7"},
+	// spilled shared strings: only a numeric cell is read before the save
+	{"new", "val 0 1 1 s " + hx("text value number 1, long enough to exceed the size limit of the part"),
+		"val 0 1 2 s " + hx("text value number 2, long enough to exceed the size limit of the part"),
+		"val 0 2 1 - " + hx("10"), "val 0 2 2 - " + hx("20"), "reopen 64", "get 0 2 1", "save 0 2", "get 0 1 1", "save 0 7"},
 }
 
 func runC02(r *Run, rng *Rng, replay string) {
@@ -1400,7 +1575,7 @@ func runC02(r *Run, rng *Rng, replay string) {
 		c02RunLines(h, wl)
 		r.Stat("history:witness")
 	}
-	for _, wl := range c02WideWitnesses {
+	for _, wl := range append(append([][]string{}, c02WideWitnesses...), c02Regressions...) {
 		h.emit = false
 		c02RunLines(h, wl)
 		r.Stat("history:witness")
@@ -1427,6 +1602,11 @@ func runC02(r *Run, rng *Rng, replay string) {
 	for i := 0; i < nMal; i++ {
 		g.history(false, rng.Range(3, 14), true)
 		r.Stat("history:malformed")
+	}
+	nSpill := nWide / 4
+	for i := 0; i < nSpill; i++ {
+		g.spillHistory()
+		r.Stat("history:spill")
 	}
 	for i := 0; i < nWide; i++ {
 		t0 := time.Now()
